@@ -371,6 +371,10 @@ def run_property(prop, argv=None):
     except subprocess.TimeoutExpired as e:
         print('INFRASTRUCTURE-ERROR property=%s timeout %s' % (prop.pid, e))
         rc = 2
+    except Exception as e:      # a crash of the machinery is never a verdict
+        print('INFRASTRUCTURE-ERROR property=%s harness crashed: %s: %s' % (prop.pid, type(e).__name__, e))
+        traceback.print_exc()
+        rc = 2
     sys.stdout.flush()
     return rc
 
@@ -470,21 +474,25 @@ def _run(prop, args):
 
     # model side, batched
     if use_model:
-        reqs = []
-        spans = []
-        for case, impl in zip(cases, impls):
-            r = prop.model_requests(case, impl)
-            spans.append((len(reqs), len(reqs) + len(r)))
-            reqs.extend(r)
-        answers = driver.ask(reqs)
-        for cidx, ((a, b), case, impl) in enumerate(zip(spans, cases, impls)):
-            if b == a or cidx in oracle_failed:
-                # a case on which the property itself fails is reported through the oracle (as a
-                # violation or a known finding); the model describes the intended behaviour there
-                continue
-            d = prop.compare(case, impl, answers[a:b])
-            if d is not None:
-                corr_diffs.append((case, impl, answers[a:b], d))
+      try:
+          reqs = []
+          spans = []
+          for case, impl in zip(cases, impls):
+              r = prop.model_requests(case, impl)
+              spans.append((len(reqs), len(reqs) + len(r)))
+              reqs.extend(r)
+          answers = driver.ask(reqs)
+          for cidx, ((a, b), case, impl) in enumerate(zip(spans, cases, impls)):
+              if b == a or cidx in oracle_failed:
+                  # a case on which the property itself fails is reported through the oracle (as a
+                  # violation or a known finding); the model describes the intended behaviour there
+                  continue
+              d = prop.compare(case, impl, answers[a:b])
+              if d is not None:
+                  corr_diffs.append((case, impl, answers[a:b], d))
+      except Exception as e:   # the model side cannot be evaluated: the tie is broken
+        broken.append(('correspondence', 'model side failed',
+                       '%s: %s\n%s' % (type(e).__name__, e, traceback.format_exc()[-1500:])))
     if corr_diffs:
         c0 = corr_diffs[0]
         broken.append(('correspondence', 'model vs implementation', '%d of %d cases differ; first: %s'
